@@ -344,6 +344,7 @@ func (e *Exec) step(fn *ssa.Function, fc *FuncContract, st *State, ins ssa.Instr
 		for _, r := range x.Results {
 			rs = append(rs, e.val(st, r))
 		}
+		e.atReturn(st, x)
 		return false, []Exit{{kind: exitReturn, st: st, results: rs}}
 
 	case *ssa.Panic:
@@ -1162,11 +1163,20 @@ func (e *Exec) abstractMul(t types.Type) bool { return e.abstractFlag("abstract_
 func (e *Exec) sremAbstract(a, b string) string {
 	e.eng.spec.need(e.sc, "srem64")
 	r := fmt.Sprintf("(srem64 %s %s)", a, b)
+	if strings.Contains(r, "q.") {
+		// under a quantifier: the range fact as a pattern-triggered axiom (once per script)
+		if !e.sc.declsrt["srem:axiom"] {
+			e.sc.declsrt["srem:axiom"] = true
+			z := "#x0000000000000000"
+			e.sc.emit(fmt.Sprintf("(assert (forall ((a (_ BitVec 64)) (b (_ BitVec 64))) (! (=> (and (bvsge a %s) (bvsgt b %s)) (and (bvsge (srem64 a b) %s) (bvslt (srem64 a b) b) (=> (bvslt a b) (= (srem64 a b) a)))) :pattern ((srem64 a b)))))", z, z, z))
+		}
+		return r
+	}
 	k := "srem:" + r
 	if !e.sc.declsrt[k] {
 		e.sc.declsrt[k] = true
 		z := "#x0000000000000000"
-		e.sc.assert(fmt.Sprintf("(=> (and (bvsge %s %s) (bvsgt %s %s)) (and (bvsge %s %s) (bvslt %s %s)))", a, z, b, z, r, z, r, b))
+		e.sc.assert(fmt.Sprintf("(=> (and (bvsge %s %s) (bvsgt %s %s)) (and (bvsge %s %s) (bvslt %s %s) (=> (bvslt %s %s) (= %s %s))))", a, z, b, z, r, z, r, b, a, b, r, a))
 	}
 	return r
 }
@@ -1219,4 +1229,66 @@ func (e *Exec) closureRequires(st *State, x *ssa.MakeClosure, f *ssa.Function, b
 		}
 		e.checkPost(st, "closure-requires", fmt.Sprintf("%s.%d", f.Name(), k), t, cl.Props, c.where)
 	}
+}
+
+// atReturn: `at_return: expr` clauses are obligations at every return instruction of the function
+// under verification, over its parameters and the local variables visible there (what a
+// postcondition cannot mention, e.g. the index a lookup settled on).
+func (e *Exec) atReturn(st *State, x *ssa.Return) {
+	if e.fc == nil || e.curFn != e.fn || len(e.fc.Lists["at_return"]) == 0 {
+		return
+	}
+	for i, cl := range e.fc.Lists["at_return"] {
+		c := e.specEnv(st, e.entry)
+		dummy := &loopInfo{header: x.Block(), body: map[*ssa.BasicBlock]bool{}}
+		for k, v := range e.loopVars(e.fn, dummy, st, x.Block()) {
+			if _, isParam := c.vars[k]; !isParam {
+				c.vars[k] = v
+			}
+		}
+		c.where = fmt.Sprintf("%s:%d", cl.File, cl.Line)
+		t, err := c.evalBool(strings.TrimSpace(cl.Expr))
+		if err != nil {
+			if strings.Contains(err.Error(), "unknown identifier") {
+				// the clause talks about a variable that does not exist on this return path
+				continue
+			}
+			panic(fmt.Sprintf("at_return: %v", err))
+		}
+		saved := e.propsDef
+		if len(cl.Props) > 0 {
+			e.propsDef = cl.Props
+		}
+		e.check(st, "at-return", fmt.Sprintf("%d", i), t, x.Pos())
+		e.propsDef = saved
+	}
+}
+
+// closureBool evaluates a one-argument predicate closure at arg under the extra guard, on a copy
+// of the state (the closure must not write: checked by its static footprint).
+func (e *Exec) closureBool(st *State, fv Val, arg Val, guard string) (string, bool) {
+	if fv.Fn == nil || len(fv.Fn.Params) != 1 {
+		return "", false
+	}
+	fp := e.eng.footprint(fv.Fn, e.sc)
+	if fp.all {
+		return "", false
+	}
+	for k := range fp.keys {
+		if fp.old[k] {
+			return "", false
+		}
+	}
+	s2 := st.clone()
+	s2.pc = e.sc.define("pc", "Bool", and(st.pc, guard))
+	key := &ssa.Parameter{}
+	ok, _ := e.inlineCall(s2, fv.Fn, fv, []Val{arg}, key)
+	if !ok {
+		return "", false
+	}
+	v, has := s2.vals[key]
+	if !has || v.S == "" {
+		return "", false
+	}
+	return v.S, true
 }
